@@ -213,15 +213,23 @@ impl EventGen for Container {
                     pieces.push(piece);
                 }
             }
-            // White space around a CDATA section (typically the line breaks between it
-            // and the tags) is layout of the source rather than part of the text.
-            let inner_text = pieces.map(|pieces| {
+            // White space around the CDATA sections (typically the line breaks between
+            // them and the tags) is layout of the source rather than part of the text;
+            // white space between two pieces of the text is part of it.
+            let inner_text = pieces.map(|mut pieces| {
                 let has_cdata = pieces.iter().any(|(is_cdata, _)| *is_cdata);
-                pieces
-                    .into_iter()
-                    .filter(|(is_cdata, t)| *is_cdata || !(has_cdata && t.trim().is_empty()))
-                    .map(|(_, t)| t)
-                    .collect::<String>()
+                let is_layout = |p: Option<&(bool, String)>| {
+                    p.is_some_and(|(is_cdata, t)| !is_cdata && t.trim().is_empty())
+                };
+                if has_cdata {
+                    if is_layout(pieces.last()) {
+                        pieces.pop();
+                    }
+                    if is_layout(pieces.first()) {
+                        pieces.remove(0);
+                    }
+                }
+                pieces.into_iter().map(|(_, t)| t).collect::<String>()
             });
             // A <text> positioned as only plain SVG allows (per-glyph lists, lengths
             // with units) can't be re-positioned as svgdx text: it stays as written.
